@@ -716,10 +716,27 @@ _process_request_(struct qb_ipcs_connection *c, int32_t ms_timeout)
 		}
 		res = size;
 		goto cleanup;
-	} else if (size == 0 || hdr->id == QB_IPC_MSG_DISCONNECT) {
+	} else if (size == 0 ||
+		   (size >= sizeof(struct qb_ipc_request_header) &&
+		    hdr->id == QB_IPC_MSG_DISCONNECT)) {
 		qb_util_log(LOG_DEBUG, "client requesting a disconnect (%s)",
 			    c->description);
 		res = -ESHUTDOWN;
+		goto cleanup;
+	} else if (size < sizeof(struct qb_ipc_request_header) ||
+		   hdr->size < 0 || hdr->size > size) {
+		/*
+		 * not even a header, or a header that claims more than has
+		 * arrived: msg_process() must not be told about bytes that
+		 * are not there
+		 */
+		qb_util_log(LOG_WARNING,
+			    "malformed request (%zd bytes received) from (%s)",
+			    size, c->description);
+		if (c->service->funcs.peek && c->service->funcs.reclaim) {
+			c->service->funcs.reclaim(&c->request);
+		}
+		res = -EINVAL;
 		goto cleanup;
 	} else {
 		c->stats.requests++;
